@@ -68,6 +68,7 @@ type provProfile struct {
 	saltByTask  map[int]*subRand
 	dsTemplates []*appsv1.DaemonSet
 	disrupt     bool
+	interpod    bool
 	d           *disruptState
 	rsQueue     []string
 	tailOK      bool
@@ -176,6 +177,10 @@ func (p *provProfile) Run(s *Sim) {
 	p.ks = NewKubeScheduler(p.e)
 	p.ks.PBind = []float64{0.7, 0.3, 1.0}[ch.Pick("prov.pbind", 3)]
 	p.ks.GiveUp = time.Duration(3+ch.Pick("prov.giveup", 4)) * time.Minute
+	p.interpod = ch.Pick("prov.interpod", 2) == 0 || s.Cfg.Variant == "interpod"
+	p.ks.InterPod = func(pod *corev1.Pod, node *ModelNode, nodes []*ModelNode) bool {
+		return InterPodAdmits(pod, node, nodes, p.namespaces())
+	}
 	p.ks.OnGiveUp = func(pod *corev1.Pod) {
 		if p.d == nil {
 			return
@@ -460,7 +465,49 @@ func (p *provProfile) genPodSpec() (corev1.PodSpec, map[string]string) {
 		spec.Tolerations = []corev1.Toleration{{Key: "example.com/dedicated", Operator: corev1.TolerationOpEqual, Value: "pool-0", Effect: corev1.TaintEffectNoSchedule}}
 	}
 	labels := map[string]string{"app": fmt.Sprintf("d%d", p.nDep)}
+	self := &metav1.LabelSelector{MatchLabels: map[string]string{"app": labels["app"]}}
+	other := &metav1.LabelSelector{MatchLabels: map[string]string{"app": fmt.Sprintf("d%d", 1+ch.Pick("pod.otherapp", max(p.nDep, 1)))}}
+	if p.interpod && !p.disrupt {
+		key := []string{corev1.LabelHostname, corev1.LabelTopologyZone}[ch.Pick("ip.key", 2)]
+		switch ch.Pick("ip.kind", 9) {
+		case 0: // self anti-affinity
+			spec.Affinity = ensureAffinity(spec.Affinity)
+			spec.Affinity.PodAntiAffinity = &corev1.PodAntiAffinity{RequiredDuringSchedulingIgnoredDuringExecution: []corev1.PodAffinityTerm{{TopologyKey: key, LabelSelector: self}}}
+		case 1: // anti-affinity against another deployment
+			spec.Affinity = ensureAffinity(spec.Affinity)
+			spec.Affinity.PodAntiAffinity = &corev1.PodAntiAffinity{RequiredDuringSchedulingIgnoredDuringExecution: []corev1.PodAffinityTerm{{TopologyKey: key, LabelSelector: other}}}
+		case 2: // affinity to another deployment
+			spec.Affinity = ensureAffinity(spec.Affinity)
+			spec.Affinity.PodAffinity = &corev1.PodAffinity{RequiredDuringSchedulingIgnoredDuringExecution: []corev1.PodAffinityTerm{{TopologyKey: key, LabelSelector: other}}}
+		case 3: // self affinity (bootstraps a domain)
+			spec.Affinity = ensureAffinity(spec.Affinity)
+			spec.Affinity.PodAffinity = &corev1.PodAffinity{RequiredDuringSchedulingIgnoredDuringExecution: []corev1.PodAffinityTerm{{TopologyKey: key, LabelSelector: self}}}
+		case 4, 5: // DoNotSchedule spread
+			c := corev1.TopologySpreadConstraint{TopologyKey: key, MaxSkew: int32(1 + ch.Pick("ip.skew", 2)), WhenUnsatisfiable: corev1.DoNotSchedule, LabelSelector: self}
+			if ch.Pick("ip.mindomains", 4) == 0 {
+				c.MinDomains = ptr.To(int32(2 + ch.Pick("ip.mindomainsv", 2)))
+			}
+			switch ch.Pick("ip.policies", 4) {
+			case 0:
+				c.NodeTaintsPolicy = ptr.To(corev1.NodeInclusionPolicyHonor)
+			case 1:
+				c.NodeAffinityPolicy = ptr.To(corev1.NodeInclusionPolicyIgnore)
+			}
+			spec.TopologySpreadConstraints = []corev1.TopologySpreadConstraint{c}
+		case 6: // preferred anti-affinity + ScheduleAnyway spread (relaxable)
+			spec.Affinity = ensureAffinity(spec.Affinity)
+			spec.Affinity.PodAntiAffinity = &corev1.PodAntiAffinity{PreferredDuringSchedulingIgnoredDuringExecution: []corev1.WeightedPodAffinityTerm{{Weight: 10, PodAffinityTerm: corev1.PodAffinityTerm{TopologyKey: key, LabelSelector: self}}}}
+			spec.TopologySpreadConstraints = []corev1.TopologySpreadConstraint{{TopologyKey: corev1.LabelTopologyZone, MaxSkew: 1, WhenUnsatisfiable: corev1.ScheduleAnyway, LabelSelector: self}}
+		}
+	}
 	return spec, labels
+}
+
+func ensureAffinity(a *corev1.Affinity) *corev1.Affinity {
+	if a == nil {
+		return &corev1.Affinity{}
+	}
+	return a
 }
 
 func (p *provProfile) deploy() {
@@ -874,6 +921,10 @@ func (p *provProfile) checkPass(pi *passInfo) {
 		}
 		mn.Pods = node.Pods // for C04: everything assigned by the end of the pass
 	}
+	p.checkInterPod(pi, targets)
+	if len(s.Viol) > 0 {
+		return
+	}
 	// C01 (b): every instance type named by each written NodeClaim has an offering that admits its pods
 	names := make([]string, 0, len(pi.created))
 	for n := range pi.created {
@@ -1260,4 +1311,144 @@ func (p *provProfile) finalChecks() {
 	if p.disrupt {
 		p.disruptFinal()
 	}
+}
+
+func (p *provProfile) namespaces() nsView {
+	out := nsView{}
+	for _, o := range p.s.store.List(gvkNS) {
+		out[o.GetName()] = o.GetLabels()
+	}
+	return out
+}
+
+// ncDomains: every domain a written NodeClaim could end up in for the key.
+func (p *provProfile) ncDomains(pi *passInfo, nc *v1.NodeClaim) func(string) []string {
+	its, _ := pi.task.Notes["its/"+nc.Labels[v1.NodePoolLabelKey]].([]*cloudprovider.InstanceType)
+	if its == nil {
+		its = p.e.CP.typesFor(nc.Labels[v1.NodePoolLabelKey])
+	}
+	return func(key string) []string {
+		if key == corev1.LabelHostname {
+			return []string{"new-" + nc.Name}
+		}
+		if v, ok := nc.Labels[key]; ok {
+			return []string{v}
+		}
+		if key == corev1.LabelTopologyZone || key == v1.CapacityTypeLabelKey {
+			set := map[string]bool{}
+			for _, name := range namedInstanceTypes(nc) {
+				for _, it := range its {
+					if it.Name != name {
+						continue
+					}
+					for _, of := range permittedOfferings(nc, it) {
+						if key == corev1.LabelTopologyZone {
+							set[of.Zone()] = true
+						} else {
+							set[of.CapacityType()] = true
+						}
+					}
+				}
+			}
+			var out []string
+			for z := range set {
+				out = append(out, z)
+			}
+			sort.Strings(out)
+			return out
+		}
+		for _, r := range nc.Spec.Requirements {
+			if r.Key == key && r.Operator == corev1.NodeSelectorOpIn {
+				return r.Values
+			}
+		}
+		return nil
+	}
+}
+
+// checkInterPod: C02 on the final plan of a caught-up pass.
+func (p *provProfile) checkInterPod(pi *passInfo, targets map[string]*ModelNode) {
+	s := p.s
+	placedUID := map[types.UID]bool{}
+	var all []*Placed
+	relevant := false
+	add := func(uid types.UID, target string, mn *ModelNode, dom func(string) []string) {
+		pod := findPod(pi.pods, uid)
+		if pod == nil {
+			return
+		}
+		placedUID[uid] = true
+		if len(requiredAntiTerms(pod)) > 0 || len(requiredAffTerms(pod)) > 0 || len(pod.Spec.TopologySpreadConstraints) > 0 {
+			relevant = true
+		}
+		all = append(all, &Placed{Pod: pod, Target: target, New: true, Node: mn, Domains: dom})
+	}
+	tkeys := make([]string, 0, len(pi.order))
+	for k := range pi.order {
+		tkeys = append(tkeys, k)
+	}
+	sort.Strings(tkeys)
+	for _, target := range tkeys {
+		name := strings.TrimPrefix(target, "nodeclaim/")
+		if nc, isNew := pi.created[name]; isNew && strings.HasPrefix(target, "nodeclaim/") {
+			dom := p.ncDomains(pi, nc)
+			hn := &ModelNode{Name: "new-" + nc.Name, Labels: nc.Labels, Taints: nc.Spec.Taints}
+			for _, uid := range pi.order[target] {
+				add(uid, target, hn, dom)
+			}
+			continue
+		}
+		mn := targets[target]
+		if mn == nil {
+			continue
+		}
+		for _, uid := range pi.order[target] {
+			add(uid, target, mn, labelDomains(withHostname(mn)))
+		}
+	}
+	if len(all) == 0 {
+		return
+	}
+	// pods already bound (not being moved by this pass), on nodes that are not deleting
+	byName := map[string]*ModelNode{}
+	for k, mn := range targets {
+		if strings.HasPrefix(k, "node/") {
+			byName[strings.TrimPrefix(k, "node/")] = mn
+		}
+	}
+	for _, q := range pi.pods {
+		if q.Spec.NodeName == "" || placedUID[q.UID] || podTerminal(q) {
+			continue
+		}
+		mn := byName[q.Spec.NodeName]
+		if mn == nil {
+			continue
+		}
+		// pods on nodes that are being deleted are on their way out: the plan is made for the cluster without them
+		if !p.usableCapacity(pi, "node/"+mn.Name, mn) {
+			continue
+		}
+		if len(requiredAntiTerms(q)) > 0 {
+			relevant = true
+		}
+		all = append(all, &Placed{Pod: q, Target: "node/" + mn.Name, Node: mn, Domains: labelDomains(withHostname(mn))})
+	}
+	if !relevant {
+		return
+	}
+	s.Probe("c02-plan-checked")
+	if o, msg := CheckInterPod(all, p.namespaces()); o != "" {
+		s.Violate("C02", o, "%s", msg)
+	}
+}
+
+func withHostname(mn *ModelNode) map[string]string {
+	if _, ok := mn.Labels[corev1.LabelHostname]; ok {
+		return mn.Labels
+	}
+	l := map[string]string{corev1.LabelHostname: mn.Name}
+	for k, v := range mn.Labels {
+		l[k] = v
+	}
+	return l
 }
